@@ -30,6 +30,9 @@ META = {
             "oracles. Modelled not verified: std::string/string_view, std::isspace/isdigit in the C locale, std::from_chars, "
             "std::strtod and snprintf(%.17g) (a double is carried as its lexeme), unordered_map as a finite map.",
 }
+
+# ---- additions of the translator / tie session (appended to the manifest texts)
+META["text"] += " The harness also parses every text as a view inside a larger buffer whose following bytes would continue the last token and flush against an inaccessible page (reads outside the input that ASan cannot see inside libc). GenTie.v: default limits = ParseLimits{} of the current headers."
 DEF_LIM = "10000,10000,100,1000000"
 WS = [b" ", b"\t", b"\n", b"\r"]
 
